@@ -119,7 +119,7 @@ pub fn gen_watch(rng: &mut Rng, o: &WatchOpts) -> Scenario {
         s.files.extend(extra);
         s
     } else {
-        gen::gen_io(rng, &IoOpts { multi_project_pct: if o.io_only { 50 } else { 25 }, max_targets: 5, cmd_pct: 0, cmd_output_pct: 0 })
+        gen::gen_io(rng, &IoOpts { multi_project_pct: if o.io_only { 50 } else { 25 }, max_targets: 5, cmd_pct: 0, cmd_output_pct: 0, own_output_inside_input_pct: 0 })
     };
     if o.service_bias {
         for t in sc.projects[0].targets.iter_mut() {
@@ -1007,6 +1007,12 @@ impl Property for C16 {
                 files.push(FileSpec { path: format!("p0/{}/{}", d, f), kind: FileKind::File(format!("{} {} v0\n", name, f)) });
             }
             files.push(FileSpec { path: format!("p0/{}/.zinoma/inner.c", d), kind: FileKind::File("inner\n".into()) });
+            if rng.chance(30) {
+                // `.zinoma` is a directory NAME: a file or directory whose name merely contains
+                // that text is an ordinary input
+                files.push(FileSpec { path: format!("p0/{}/deploy.zinoma.c", d), kind: FileKind::File(format!("{} deploy v0\n", name)) });
+                files.push(FileSpec { path: format!("p0/{}/site.zinoma/page.c", d), kind: FileKind::File(format!("{} page v0\n", name)) });
+            }
             let ext = match rng.weighted(&[45, 35, 20]) {
                 0 => None,
                 1 => Some(vec!["c".to_string(), ".h".to_string()]),
@@ -1050,6 +1056,14 @@ impl Property for C16 {
                 t.output.push(Res::Paths { paths: vec![out.clone()], extensions: None });
                 t.writes.push(out);
             }
+            if rng.chance(12) && t.input.iter().all(|r| matches!(r, Res::Paths { paths, .. } if paths.contains(&format!("src/{}", name)))) {
+                // generated sources written next to the hand-written ones, inside the very
+                // directory the target watches: its own output must not start it again for ever
+                // (only where input and output spell that directory the same way: zinoma
+                // identifies files by their path as declared, see DESIGN.md section 9, F14)
+                t.output.push(Res::Paths { paths: vec![format!("src/{}/built", name)], extensions: None });
+                t.writes.push(format!("src/{}/built/gen.c", name));
+            }
             if i > 0 && rng.chance(40) {
                 t.deps.push(DepRef { project: 0, target: format!("t{}", i - 1), via_dep: true, via_output: false, qualified: false });
             }
@@ -1085,8 +1099,12 @@ impl Property for C16 {
         }
         let nb = rng.range(2, 7);
         let dirs: Vec<String> = sc.projects[0].targets.iter().filter(|t| t.name != "lint").map(|t| format!("p0/src/{}", t.name)).collect();
-        let existing: Vec<String> = sc.files.iter().filter(|f| matches!(f.kind, FileKind::File(_)) && !f.path.contains("/.zinoma/")).map(|f| f.path.clone()).collect();
+        let mut existing: Vec<String> = sc.files.iter().filter(|f| matches!(f.kind, FileKind::File(_)) && !f.path.contains("/.zinoma/")).map(|f| f.path.clone()).collect();
+        let look_alikes: Vec<String> = existing.iter().filter(|f| f.contains(".zinoma")).cloned().collect();
+        existing.extend(look_alikes.clone());
+        existing.extend(look_alikes);
         let mut created: Vec<String> = vec![];
+        let writes_into_own_input = sc.projects[0].targets.iter().any(|t| t.writes.iter().any(|w| w.contains("/built/")));
         for b in 0..nb {
             let d = rng.pick(&dirs).clone();
             let sub = if rng.chance(25) { format!("{}/sub", d) } else { d.clone() };
@@ -1106,7 +1124,11 @@ impl Property for C16 {
                 }
                 2 => FsOp::Write { path: format!("{}/.zinoma/inner.c", d), content: format!("inner {}\n", b) },
                 3 => {
-                    let name = *rng.pick(&HOSTILE);
+                    // (a name that is not valid UTF-8 makes the record of the target
+                    // unserialisable: it is rebuilt on every evaluation, by design; for a target
+                    // that also writes into its own watched directory that means for ever -
+                    // DESIGN.md section 12 - so such sessions get the other hostile names only)
+                    let name = if writes_into_own_input { *rng.pick(&["new\\x0aline.c", "...", "sp ace.c", ".c", "caf\\xc3\\xa9.c", "tab\\x09.h"]) } else { *rng.pick(&HOSTILE) };
                     let p = format!("{}/{}", sub, name);
                     created.push(p.clone());
                     FsOp::Create { path: p, content: format!("hostile {}\n", b) }
